@@ -73,9 +73,34 @@ def grammar_history(rng):
     return calls
 
 
+def termfile_history(rng):
+    """terminal files only: well-formed files and a rejected one (double index), each used several times in any order -
+    every call says what a fresh process would say about that file"""
+    files = {}
+    calls = []
+    order = [rng.choice(["t1.txt", "t2.txt", "dup.txt"]) for _ in range(rng.randint(3, 6))]
+    if "dup.txt" not in order:
+        order.insert(rng.randint(1, len(order)), "dup.txt")
+    order.insert(order.index("dup.txt") + 1, "dup.txt")          # the rejected file again, right after it was rejected
+    if order[0] == "dup.txt" and rng.random() < 0.7:
+        order.insert(0, "t1.txt")
+    op = rng.choice(["substitute_terminals", "insert_terminals"])
+    for name in order:
+        t = small_tree(rng)
+        sid = rng.randint(1, 2)
+        if name not in files:
+            files[name] = term_content(rng, sid, len(trees.terminals(t)), dup=(name == "dup.txt"))
+        calls.append({"op": op if rng.random() < 0.8 else rng.choice(["substitute_terminals", "insert_terminals"]), "file": name,
+                      "content": files[name], "sid": sid, "tree": proto.enc_tree(t), "quiet": rng.random() < 0.5})
+    return calls
+
+
 def mk_history(rng):
-    if rng.random() < 0.3:
+    r0 = rng.random()
+    if r0 < 0.3:
         return grammar_history(rng)
+    if r0 < 0.5:
+        return termfile_history(rng)
     files = {"t1.txt": None, "t2.txt": None, "dup.txt": None}
     calls = []
     n = rng.randint(3, 7)
